@@ -367,6 +367,128 @@ func c16(c *Ctx) {
 			}
 		}
 		r.Check("cleanup:closes-sink", okClose, cleanup.Pos(), "cleanup closes the Sink so the drain loop terminates")
+		// the cancellation channel belongs to the held stream: where Run waits on a stored Done() channel and
+		// completes the stream when it fires, the branch on which no stream is held has cleared that channel
+		// (a stale channel of a stream completed long ago fires with stream == nil: nil dereference in Run)
+		if streamAlloc != nil {
+			eachInstr(run, func(in ssa.Instruction) {
+				sel, ok := in.(*ssa.Select)
+				if !ok {
+					return
+				}
+				for k, st := range sel.States {
+					if st.Dir != types.RecvOnly {
+						continue
+					}
+					_, to := selectCaseEdge(sel, k)
+					if to == nil {
+						continue
+					}
+					isStreamLoad := func(v ssa.Value) bool {
+						u, ok := v.(*ssa.UnOp)
+						return ok && u.Op == token.MUL && u.X == ssa.Value(streamAlloc)
+					}
+					if ph, isPhi := st.Chan.(*ssa.Phi); isPhi {
+						// the channel variable lives in registers: each incoming edge of the value waited on is
+						// classified by what is known about the stream variable there
+						completesPhi := false
+						for _, b := range run.Blocks {
+							if b != to && !to.Dominates(b) {
+								continue
+							}
+							for _, in2 := range b.Instrs {
+								if base, isCb := isCbCall(in2); isCb && isStreamLoad(base) {
+									completesPhi = true
+								}
+							}
+						}
+						if !completesPhi {
+							continue
+						}
+						okAll, why := true, ""
+						for i, e := range ph.Edges {
+							pred := ph.Block().Preds[i]
+							facts := factsAt(pred)
+							if len(pred.Instrs) > 0 {
+								if ifi, ok := pred.Instrs[len(pred.Instrs)-1].(*ssa.If); ok && pred.Succs[0] != pred.Succs[1] {
+									facts = append(facts, canonOf(Cond{V: ifi.Cond, Sense: pred.Succs[0] == ph.Block(), If: ifi}))
+								}
+							}
+							switch {
+							case knownNil(facts, isStreamLoad):
+								if !isNilConst(e) {
+									okAll, why = false, "with no stream held the channel waited on is "+exprString(e, 0)+", not nil"
+								}
+							case knownNonNil(facts, isStreamLoad):
+							default:
+								okAll, why = false, "an edge into the wait is not decided by a test of the stream variable"
+							}
+						}
+						r.Check("Run:cancel-channel-cleared-with-stream", okAll, sel.Pos(), "before waiting, the branch on which no stream is held sets the stored cancellation channel to nil (otherwise a completed stream's context can fire with stream == nil) "+why)
+						continue
+					}
+					ld, isLd := st.Chan.(*ssa.UnOp)
+					if !isLd || ld.Op != token.MUL {
+						continue
+					}
+					cell, isCell := ld.X.(*ssa.Alloc)
+					if !isCell {
+						continue
+					}
+					completes := false
+					for _, b := range run.Blocks {
+						if b != to && !to.Dominates(b) {
+							continue
+						}
+						for _, in2 := range b.Instrs {
+							if base, isCb := isCbCall(in2); isCb {
+								if u, ok := base.(*ssa.UnOp); ok && u.X == ssa.Value(streamAlloc) {
+									completes = true
+								}
+							}
+						}
+					}
+					if !completes {
+						continue
+					}
+					// the dominating test of the stream variable against nil
+					cleared, tested := false, false
+					for _, b := range run.Blocks {
+						if len(b.Instrs) == 0 || !b.Dominates(sel.Block()) {
+							continue
+						}
+						ifi, isIf := b.Instrs[len(b.Instrs)-1].(*ssa.If)
+						if !isIf {
+							continue
+						}
+						cmp, isCmp := ifi.Cond.(*ssa.BinOp)
+						if !isCmp || (cmp.Op != token.EQL && cmp.Op != token.NEQ) || !isNilConst(cmp.Y) {
+							continue
+						}
+						sl, isSl := cmp.X.(*ssa.UnOp)
+						if !isSl || sl.X != ssa.Value(streamAlloc) {
+							continue
+						}
+						nilSucc := b.Succs[0]
+						if cmp.Op == token.NEQ {
+							nilSucc = b.Succs[1]
+						}
+						tested = true
+						for _, nb := range run.Blocks {
+							if nb != nilSucc && !nilSucc.Dominates(nb) {
+								continue
+							}
+							for _, in3 := range nb.Instrs {
+								if s3, ok := in3.(*ssa.Store); ok && s3.Addr == ssa.Value(cell) && isNilConst(s3.Val) {
+									cleared = true
+								}
+							}
+						}
+					}
+					r.Check("Run:cancel-channel-cleared-with-stream", tested && cleared, sel.Pos(), "before waiting, the branch on which no stream is held sets the stored cancellation channel to nil (otherwise a completed stream's context can fire with stream == nil)")
+				}
+			})
+		}
 		// a failed write is never swallowed: from the failing edge of the test of Write's error no completion of a
 		// stream is reachable inside innerRun (the function is left with the error, which Run records before the
 		// stream is completed), and the error the function returns on that path is that error
